@@ -152,6 +152,7 @@ type sched struct {
 	raceBefore int
 
 	stepCap int
+	quiet   int
 }
 
 // S is the single scheduler of this process.
@@ -266,6 +267,9 @@ func (s *sched) enabled(t *Thread) bool {
 //
 //go:norace
 func (s *sched) nextChoice(n int, kind int, curEn bool, sig uint32) int {
+	if s.quiet > 0 {
+		return 0 // harness setup phase: deterministic default schedule, no choice points
+	}
 	if s.npoints >= MaxPoints {
 		s.setVerdict(VHorizon, "choice point cap reached")
 		return 0
@@ -764,6 +768,7 @@ func Run(opts RunOpts, body func()) *Exec {
 	s.npoints, s.steps, s.preempt = 0, 0, 0
 	s.verdict, s.verdictMsg = VNone, ""
 	s.aborting = false
+	s.quiet = 0
 	s.prefix, s.prefixSig = opts.Prefix, opts.PrefixSig
 	s.permute = opts.Permute
 	s.hash = 14695981039346656037
@@ -811,3 +816,22 @@ func Run(opts RunOpts, body func()) *Exec {
 //
 //go:norace
 func PermuteMaps() bool { return S.active && S.permute }
+
+// Quiet runs fn (harness fixture set-up inside an execution) with the
+// scheduler taking its default choice everywhere and recording no choice
+// points, so set-up steps do not multiply the explored schedules. Only to be
+// used while no other harness thread is running.
+//
+//go:norace
+func Quiet(fn func()) {
+	if !S.active {
+		fn()
+		return
+	}
+	S.quiet++
+	defer endQuiet()
+	fn()
+}
+
+//go:norace
+func endQuiet() { S.quiet-- }
